@@ -235,6 +235,15 @@ theorem integ_beta (p q : ℕ) :
     push_cast
     field_simp
 
+/-! ### non-vacuity -/
+
+example : integ (monomial 2 (3 : ℚ)) = 2 := by rw [integ_monomial]; norm_num [wgt]
+
+example : integ (monomial 3 (5 : ℚ)) = 0 := by rw [integ_monomial]; norm_num [wgt]
+
+/-- `∫_{−1}^{1} ((1+x)/2)² (1−x)/2 dx = 1/6` -/
+example : integ (u ^ 2 * v ^ 1) = 1 / 6 := by rw [integ_beta]; norm_num [Nat.factorial]
+
 end
 
 end AurelVerif.HarmJacobi
